@@ -276,6 +276,63 @@ theorem ev_call {P ty f args ρ w r} :
     | fail f w' => rfl
     | ok v w' => simp only [Res.bind]; cases evalList n P ρ w' args <;> rfl
 
+/-! ### calls through a `dyn` value -/
+
+/-- dispatch on the implementation registered for the receiver's type key -/
+def dynDispatch (P : Prog) (tr m key : String) (v : Val) (vs : List Val) (w : World) (r : Res Val) : Prop :=
+  match P.impls.find? (fun i => i.1 == tr && i.2.1 == key && i.2.2.1 == m) with
+  | some i => App P w (.fn i.2.2.2) (v :: vs) r
+  | none => r = .fail (.stuck ("no impl of " ++ tr ++ " for " ++ key)) w
+
+def dynK (P : Prog) (tr m : String) (args : List Expr) (ρ : Env) (v : Val) (w : World) (r : Res Val) : Prop :=
+  match v with
+  | .dyn _ key v0 => RB (EvL P args ρ w) (fun vs w2 => dynDispatch P tr m key v0 vs w2) r
+  | _ => r = .fail (.stuck "dyn call on a non-dyn value") w
+
+def dynG (P : Prog) (tr m : String) (args : List Expr) (ρ : Env) (n : Nat) (v : Val) (w : World) : Res Val :=
+  match v with
+  | .dyn _ key v0 =>
+    (evalList n P ρ w args).bind (fun vs w2 =>
+      match P.impls.find? (fun i => i.1 == tr && i.2.1 == key && i.2.2.1 == m) with
+      | some i => apply n P w2 (.fn i.2.2.2) (v0 :: vs)
+      | none => .fail (.stuck ("no impl of " ++ tr ++ " for " ++ key)) w2)
+  | _ => .fail (.stuck "dyn call on a non-dyn value") w
+
+theorem ev_dynCall {P tr m ty recv args ρ w r} :
+    Ev P (.dynCall tr m ty recv args) ρ w r ↔ RB (Ev P recv ρ w) (dynK P tr m args ρ) r := by
+  rw [ev_unfold (H := fun n => (eval n P ρ w recv).bind (dynG P tr m args ρ n))]
+  · refine conv_bind' (F := fun n => eval n P ρ w recv) (G := dynG P tr m args ρ) (mono_eval _ _ _ _) ?_ ?_ r
+    · intro a w'; unfold dynG; split
+      · rename_i key v0
+        refine mono_bind (F := fun n => evalList n P ρ w' args) (G := fun n vs w2 =>
+          match P.impls.find? (fun i => i.1 == tr && i.2.1 == key && i.2.2.1 == m) with
+          | some i => apply n P w2 (.fn i.2.2.2) (v0 :: vs)
+          | none => .fail (.stuck ("no impl of " ++ tr ++ " for " ++ key)) w2) (mono_evalList _ _ _ _) ?_
+        intro vs w2; split
+        · exact mono_apply _ _ _ _
+        · exact mono_const _
+      · exact mono_const _
+    · intro a w' r; unfold dynG dynK; split
+      · rename_i key v0
+        refine conv_bind' (F := fun n => evalList n P ρ w' args) (G := fun n vs w2 =>
+          match P.impls.find? (fun i => i.1 == tr && i.2.1 == key && i.2.2.1 == m) with
+          | some i => apply n P w2 (.fn i.2.2.2) (v0 :: vs)
+          | none => .fail (.stuck ("no impl of " ++ tr ++ " for " ++ key)) w2) (mono_evalList _ _ _ _) ?_ ?_ r
+        · intro vs w2; split
+          · exact mono_apply _ _ _ _
+          · exact mono_const _
+        · intro vs w2 r; unfold dynDispatch; split
+          · exact Iff.rfl
+          · exact conv_stuck
+      · exact conv_stuck
+  · intro n; rw [eval]; unfold dynG; cases eval n P ρ w recv with
+    | fail f w' => rfl
+    | ok v w' =>
+      simp only [Res.bind]
+      cases v <;> try rfl
+      simp only
+      cases evalList n P ρ w' args <;> rfl
+
 /-! ### binary operators (short-circuit `&&`, `||`) -/
 
 /-- the left operand alone decides -/
